@@ -486,6 +486,9 @@ func (w *world) pairTransitions(f *findings, bfs *bfs) {
 			// (2b) failure modes of the diff input itself, and other encodings of the same diff
 			small := len(A.src) <= 1 && len(B.src) <= 1
 			for _, ic := range inputPlan(diff, small, small && w.p.allFaults, a+b) {
+				if v.kind != "" && ic.want != mustFail {
+					continue // the plain diff already fails for this pair: another encoding of it would only repeat that
+				}
 				w.runInput(s, f, li, a, b, diff, ic, keys)
 			}
 			if w.fileFaultPair(a, b) {
@@ -614,6 +617,9 @@ func (w *world) bulkPair(s *session, f *findings, bfs *bfs, li, a, b int) {
 		}
 	}
 	for _, ic := range bulkInputPlan(diff) {
+		if v.kind != "" && ic.want != mustFail {
+			continue // the plain diff already fails for this pair
+		}
 		w.runInput(s, f, li, a, b, diff, ic, keys)
 		atomic.AddInt64(&cnt.BulkFaulty, 1)
 	}
